@@ -116,8 +116,8 @@ func caseMangle(r *rand.Rand, w string) string {
 	case 0:
 		return strings.ToUpper(w)
 	case 1:
-		if len(w) > 0 {
-			return strings.ToUpper(w[:1]) + w[1:]
+		if rs := []rune(w); len(rs) > 0 { // rune-aware: never cut a multi-byte character
+			return strings.ToUpper(string(rs[:1])) + string(rs[1:])
 		}
 	}
 	return w
